@@ -248,7 +248,9 @@ def _literal_cost(b):
     return cost
 
 
-WARN_RE = re.compile(rb"(?m)^(?:SERVER|CLIENT)\|[^\n]*\|Long log line, splitting into multiple lines\n")
+# not anchored at a line start: with a delimiter byte in the content (the other recorded finding) a line arrives
+# in several messages and the log record can be printed between two of them
+WARN_RE = re.compile(rb"(?:SERVER|CLIENT)\|[^\n|]*\|WARN\|[^\n]*?\|Long log line, splitting into multiple lines\n")
 
 
 def strip_warn(case, out):
